@@ -115,6 +115,16 @@ func targets(tier string) []target {
 		// CKKS conjugate-invariant ring: 16 real slots
 		ckksTarget(circ.CKKSSpec{LogN: 4, NQ: 4, Q0Bits: 55, QBits: 45, NP: 1, PBits: 56, LogScale: 45, CI: true}, 4),
 	}
+	// sparse packing, 8 and 2 slots in a ring with 16; three P primes with 5 Q primes (#P does not divide #Q; LevelP 0..2)
+	sp8 := ckksTarget(circ.CKKSSpec{LogN: 5, NQ: 5, Q0Bits: 45, QBits: 30, NP: 2, PBits: 46, LogScale: 30}, 3)
+	sp8.lite = true
+	sp2 := ckksTarget(circ.CKKSSpec{LogN: 5, NQ: 5, Q0Bits: 45, QBits: 30, NP: 2, PBits: 46, LogScale: 30}, 1)
+	sp2.lite = true
+	p3b := bgvTarget(circ.BGVSpec{LogN: 4, NQ: 5, QBits: 36, NP: 3, PBits: 37, T: 97})
+	p3b.lite = true
+	p3c := ckksTarget(circ.CKKSSpec{LogN: 4, NQ: 5, Q0Bits: 50, QBits: 40, NP: 3, PBits: 51, LogScale: 40}, 3)
+	p3c.lite = true
+	ts = append(ts, sp8, sp2, p3b, p3c)
 	// BGV 2x16 with 60-bit Q primes and one 61-bit P prime: the lazy accumulations of the evaluation run
 	// with the smallest overflow margins (QiOverflowMargin = 16), and LevelP = 0 takes the single-P gadget product
 	big := bgvTarget(circ.BGVSpec{LogN: 5, NQ: 3, QBits: 60, NP: 1, PBits: 61, T: 65537})
@@ -125,6 +135,14 @@ func targets(tier string) []target {
 	big7 := bgvTarget(circ.BGVSpec{LogN: 7, NQ: 3, QBits: 60, NP: 1, PBits: 61, T: 65537})
 	big7.lite, big7.dense = true, true
 	ts = append(ts, big7)
+	if tier == "thorough" {
+		// n = 32: structured sets only
+		b6 := bgvTarget(circ.BGVSpec{LogN: 6, NQ: 4, QBits: 45, NP: 2, PBits: 50, T: 65537})
+		b6.lite = true
+		c6 := ckksTarget(circ.CKKSSpec{LogN: 6, NQ: 4, Q0Bits: 50, QBits: 40, NP: 2, PBits: 51, LogScale: 40}, 5)
+		c6.lite = true
+		ts = append(ts, b6, c6)
+	}
 	return ts
 }
 
@@ -138,10 +156,7 @@ func toSets(prefix string, ss [][]int) []diagSet {
 
 func scenarios(tier string) []engine.Scenario {
 	var scs []engine.Scenario
-	maxSize := 2
-	if tier == "thorough" {
-		maxSize = 3
-	}
+	maxSize := 3
 	for _, tg := range targets(tier) {
 		tg := tg
 		for _, ratio := range ratioCycle {
@@ -163,13 +178,19 @@ func scenarios(tier string) []engine.Scenario {
 				sets := subsetsOfSize(tg.n, size)
 				bound, entries := 1, allEntries
 				switch {
+				case size <= 2 && tg.n <= 8:
+					bound = 2 // quick and thorough
 				case thorough && size <= 3 && tg.n <= 8:
 					bound = 2
 				case thorough && size == 1:
 					bound = 2
 				case !thorough && size == 2 && tg.n >= 16:
 					bound, entries = 0, coreEntries
+				case size == 3 && tg.n >= 16 && !thorough:
+					bound, entries = 0, []int{eEvaluateNew}
 				case size == 3 && tg.n >= 16:
+					bound, entries = 1, coreEntries
+				case size == 3 && !thorough:
 					bound, entries = 0, coreEntries
 				}
 				// large families are split so that scenarios have similar cost
@@ -203,8 +224,8 @@ func scenarios(tier string) []engine.Scenario {
 			} else {
 				add("structured", structuredSets(tg.n), 1, allEntries)
 			}
-			if tier == "thorough" && tg.n == 8 {
-				add("powerset", toSets("pow", powerSetNonNeg(8)), 1, allEntries)
+			if tier == "thorough" && tg.n == 8 && !tg.lite {
+				add("powerset", toSets("pow", powerSetNonNeg(8)), 2, allEntries)
 			}
 		}
 	}
@@ -236,7 +257,7 @@ func main() {
 			e := []string{"algo=naive", "algo=bsgs", "index=negative", "index=positive", "index=zero",
 				"ltLevelQ=max", "ltLevelQ=max-1", "ltLevelQ=lowest", "levelP=max", "levelP=max-1",
 				"ctLevel=above-lt", "ctLevel=equal-lt", "ctLevel=below-lt", "ltScale=true", "ltScale=false", "ctScale=true", "ctScale=false",
-				"evaluator=fresh", "evaluator=reused", "nDiags=1", "nDiags=2", "nDiags=all", "checked=sequential", "checked=many1", "checked=many2", "checked=many3",
+				"evaluator=fresh", "evaluator=reused", "evaluator=late-keys", "repeat=yes", "nDiags=3", "levelP=lowest3", "nDiags=1", "nDiags=2", "nDiags=all", "checked=sequential", "checked=many1", "checked=many2", "checked=many3",
 				"N1=1", "N1=2", "N1=4", "N1=8", "perm=all-of-4", "perm=family-8", "special=out-of-range-index", "special=empty-diagonal-set", "class=naive-only-diagonal-0", "class=EvaluateMany-after-giant-step", "many=no-earlier-giant-step"}
 			for _, r := range ratioCycle {
 				e = append(e, fmt.Sprintf("ratio=%d", r))
@@ -245,9 +266,6 @@ func main() {
 				for _, en := range entryName {
 					e = append(e, "entry="+s+"/"+en)
 				}
-			}
-			if tier == "thorough" {
-				e = append(e, "nDiags=3")
 			}
 			return e
 		},
